@@ -237,6 +237,7 @@ func (g *Gen) Step() bool {
 			choice{g.wt("refburst"), func() { g.opRefBurst(conns) }},
 			choice{g.wt("throtburst"), func() { g.opThrottleBurst(conns) }},
 			choice{g.wt("gcburst"), func() { g.opGCBurst(conns) }},
+			choice{g.wt("aliasburst") * boolInt(len(g.qnames) > 0), func() { g.opAliasBurst(conns) }},
 			choice{g.wt("hostilereq"), func() { g.opHostileReq(conns) }},
 		)
 	}
@@ -810,6 +811,66 @@ func (g *Gen) opThrottleBurst(conns []*Client) {
 	}
 }
 
+// opAliasBurst: two raw queries that the service normalises to the same query
+// are subscribed with both gets in flight; the second one is answered first
+// (which loads the shared resource), then the first one - successfully, with an
+// error, a timeout, or (when the profile injects) a malformed payload.
+func (g *Gen) opAliasBurst(conns []*Client) {
+	name := g.sample("abname", g.qnames)
+	d := g.w.Svc.def(name)
+	if d == nil || len(d.QueryMap) == 0 {
+		return
+	}
+	byNorm := map[string][]string{}
+	for raw, norm := range d.QueryMap {
+		byNorm[norm] = append(byNorm[norm], raw)
+	}
+	var norms []string
+	for n, raws := range byNorm {
+		if len(raws) >= 2 {
+			sort.Strings(raws)
+			norms = append(norms, n)
+		}
+	}
+	if len(norms) == 0 {
+		return
+	}
+	sort.Strings(norms)
+	raws := byNorm[g.sample("abnorm", norms)]
+	i := rapid.IntRange(0, len(raws)-1).Draw(g.t, "abfirst")
+	j := rapid.IntRange(0, len(raws)-2).Draw(g.t, "absecond")
+	if j >= i {
+		j++
+	}
+	c1, c2 := g.conn(conns), g.conn(conns)
+	g.w.Exec(Op{K: "creq", C: c1.Idx, ID: g.nextID(c1), M: "subscribe." + name + "?" + raws[i]})
+	g.w.Exec(Op{K: "creq", C: c2.Idx, ID: g.nextID(c2), M: "subscribe." + name + "?" + raws[j]})
+	answer := func(q string, first bool) {
+		for _, pv := range g.w.PendingSorted() {
+			if pv.P.Subject != "get."+name || pv.P.Query != q {
+				continue
+			}
+			op := Op{K: "ans", S: pv.P.Subject, Q: pv.P.Query, A: actorEnc(pv.Actor), N: pv.Ord, O: "ok"}
+			if !first {
+				switch k := rapid.IntRange(0, 9).Draw(g.t, "about"); {
+				case k < 3 && g.wt("inject") > 0:
+					op.O, op.P, op.Key = "raw", g.sample("ianswer", badGetAnswer), "inject:get/answer"
+				case k < 4:
+					op.O, op.P = "err", "system.internalError"
+				case k < 5:
+					op.O = "timeout"
+				case k < 6:
+					op.O, op.P = "err", "system.notFound"
+				}
+			}
+			g.w.Exec(op)
+			return
+		}
+	}
+	answer(raws[j], true)
+	answer(raws[i], false)
+}
+
 // opGCBurst releases a tree the client holds while another tree, which may
 // share children with it, is still loading on the same connection (the shape
 // of issue #241): subscribe P, answer P itself but not its children, release R
@@ -988,7 +1049,7 @@ func (g *Gen) opHostileReq(conns []*Client) {
 		m += "." + strings.Join(toks, ".")
 	}
 	if rapid.IntRange(0, 4).Draw(g.t, "hq") == 0 {
-		m += "?" + g.sample("hquery", []string{"", "a=1", "x.y=*", " ", ">", "\n"})
+		m += "?" + g.sample("hquery", []string{"", "a=1", "x.y=*", " ", ">", "\n", "a=1?b=2", "?", "x .>?y", "a=?"})
 	}
 	g.w.Exec(Op{K: "creq", C: c.Idx, ID: g.nextID(c), M: m})
 }
@@ -1017,7 +1078,7 @@ func (g *Gen) opHostileHTTP() {
 	}
 	url := prefix + strings.Join(segs, "/")
 	if rapid.IntRange(0, 3).Draw(g.t, "hq") == 0 {
-		url += "?" + g.sample("hquery", []string{"a=1", "x.y=*", "%20", "a=>"})
+		url += "?" + g.sample("hquery", []string{"a=1", "x.y=*", "%20", "a=>", "a=1?b=2", "?", "x%20.%3E?y", "a=1%3Fb=2"})
 	}
 	method := g.sample("hmethod", []string{"GET", "GET", "POST", "POST", "HEAD", "PUT", "DELETE"})
 	g.http++
